@@ -180,6 +180,12 @@ impl Fail {
     pub fn new(kind: &str, sig: impl Into<String>, detail: impl Into<String>, case: J) -> Fail {
         Fail { kind: kind.into(), sig: sig.into(), detail: detail.into(), case }
     }
+    /// a panic while the harness evaluates its own oracle: if it did not originate in the repository's sources it is a defect of
+    /// the harness (reported as such, never as a violation of the property)
+    pub fn check_panic(p: &PanicInfo, what: &str, case: J) -> Fail {
+        let in_repo = p.loc.starts_with("src/") || p.loc.starts_with("slotted-egraphs-derive/");
+        Fail::panic(if in_repo { "panic" } else { "harness-panic" }, p, what, case)
+    }
     pub fn panic(kind: &str, p: &PanicInfo, what: &str, case: J) -> Fail {
         Fail {
             kind: kind.into(),
@@ -345,8 +351,9 @@ where
                 Err(p) => {
                     // a panic that escaped the property's own guards is a harness-level event:
                     // reported as a failure of kind "harness-panic" so that it is never silently dropped.
+                    // (a panic that originates in the repository's sources is the crate's, wherever it was caught)
                     let mut o = CaseOut::default();
-                    o.fail(Fail::panic("harness-panic", &p, "uncaught panic in case", J::Null));
+                    o.fail(Fail::check_panic(&p, "panic outside the property's own guards", J::S(format!("case_seed={case_seed}"))));
                     o
                 }
             };
